@@ -276,7 +276,15 @@ impl Adversary for AckForger {
         };
         // window-base fields equal to what the sender already holds: only the groups differ
         let fb = h.tx_frame_window_base_id;
-        let pb = h.tx_packet_base_id;
+        let mut pb = h.tx_packet_base_id;
+        // ... except that a quarter of the worthless frames (kinds i and ii) carry a packet window
+        // base that is no packet id at all: its low 20 bits name a packet just inside the
+        // sender's window, higher bits are set. Such a frame acknowledges nothing whatsoever
+        // (decided from values at hand, no draw: the other choices stay what they were)
+        if kind <= 1 && (fb ^ pb ^ now_us as u32).wrapping_mul(0x9E37_79B1) >> 30 == 0 {
+            let high = ((fb.wrapping_mul(0x85EB_CA6B) >> 20) | 1) & 0xFFF;
+            pb = (pb.wrapping_add(1 + (fb & 7)) & 0xFFFFF) | (high << 20);
+        }
         if kind == 4 {
             // (v) a correct-parity group that repeats an earlier acknowledgement of a newer frame
             // next to a first acknowledgement of an older one: the newer frame b is acknowledged
